@@ -1,6 +1,12 @@
-From PDS Require Export Exec.Run Model.Bloom.
-(* opcodes: 0 new i m k | 2 ins i x | 3 q i x | 4 union i j | 5 clear i | 6 clone i j | 7 obs i | 9 empty i *)
+From PDS Require Export Exec.Run Model.Bloom Model.Sizing.
+(* opcodes: 0 new i m k | 2 ins i x | 3 q i x | 4 union i j | 5 clear i | 6 clone i j | 7 obs i | 8 len i | 9 empty i
+   len() is a float computation (Model/Sizing.v bloom_len) over the number of set bits: the arithmetic instance, ofN, ln
+   and the truncating cast are supplied by the driver as for HllCount *)
 Section Ex.
+Variable A : arith.
+Variable ofN : N -> aT A.
+Variable ln : aT A -> aT A.
+Variable trunc : aT A -> N.
 Variable H : hashfn.
 Variable u : N.
 Definition bloom_obs (s : bloom) : option (list N) :=
@@ -19,10 +25,11 @@ Definition bloom_step (t : insts bloom) (o : opline) : option (insts bloom * lis
   | 5 => do s <- iget t i; Some (iset t i (bloom_clear s), [])
   | 6 => do s <- iget t i; Some (iset t (arg a 1) s, [])
   | 7 => do s <- iget t i; do r <- bloom_obs s; Some (t, r)
+  | 8 => do s <- iget t i; Some (t, [bloom_len A ofN ln trunc (bm s) (bk s) (bloom_ones s)])
   | 9 => do s <- iget t i; Some (t, [b2n (bloom_is_empty s)])
   | _ => None
   end.
 End Ex.
-Definition bloom_case (c : list (N * N * N) * N * list opline) : option (N * option (list N)) :=
-  let '(hl, u, ops) := c in run_ops (bloom_step (mkH hl) u) [] ops 0.
-Definition bloom_check (cs : list (list (N * N * N) * N * list opline)) := collect bloom_case cs 0.
+Definition bloom_case A ofN ln trunc (c : list (N * N * N) * N * list opline) : option (N * option (list N)) :=
+  let '(hl, u, ops) := c in run_ops (bloom_step A ofN ln trunc (mkH hl) u) [] ops 0.
+
